@@ -598,6 +598,24 @@ def w_wiring(ck, F):
     if bad: ck.violation('W', 'W : decode_next_picture : arguments', where_of(b), '; '.join(bad[:4]))
     else: ck.ok('W', 'predict_candidate(%s, motion_vectors, %s, k) x 4; mv_decode(next_decoded_picture, next_running_options, .., ..) x 4; '
                      'gather(macroblock_types, .., predictor_vectors, %s, next_decoded_picture)' % (nshow(pc[0][2][0]), nshow(mbpl), nshow(mbpl)), where_of(b, pc[0][0]))
+    # order inside a four-vector macroblock: the candidate for vector k reads the vectors 1..k-1 of this macroblock through `&motion_vectors`, so
+    # predict_candidate(.., k) must come after the stores of motion_vectors[0..k-1] (6.1.1: MV1 of block k is a vector of the same macroblock)
+    from ..loopexpr import stores as nstores
+    st_mv = {}
+    for bb, s_, t_, v_ in nstores(Tb, N):
+        if t_[0] == 'el' and t_[1] == ('v', 'motion_vectors') and t_[2][0] == 'c' and v_[0] == 'f' and v_[1] == 'mv_decode':
+            st_mv.setdefault(t_[2][1], []).append(bb)
+    obad = []
+    for bb, t, a in pc:
+        if len(a) != 4 or a[3][0] != 'c': continue
+        k = a[3][1]
+        for j in range(k):
+            sj = st_mv.get(j, [])
+            if len(sj) != 1 or not g.dominates(sj[0], bb):
+                obad.append('predict_candidate(.., %d) is not preceded by the store of motion_vectors[%d]' % (k, j))
+    if sorted(st_mv) != [0, 1, 2, 3]: obad.append('stores of decoded vectors found for indices %s, expected 0..3' % sorted(st_mv))
+    if obad: ck.violation('W', 'W : decode_next_picture : order of prediction and stores', where_of(b), '; '.join(obad[:4]))
+    else: ck.ok('W', 'predict_candidate(.., k) runs after motion_vectors[0..k-1] of the same macroblock have been stored, k = 1..3', where_of(b, pc[0][0]))
     # the start index, when there is one: 0 at the start of a picture; inside the loop only := macroblock_types.len(), and only behind decode_gob
     loops = g.loops(); head = None
     for h, body in loops.items():
